@@ -73,6 +73,11 @@ claimed["C13"] = ("contract-based deductive verification: one-level postconditio
   "Trusted/assumed: alias targets are not aliases, children are non-nil, maps have an even number of children (decoder invariants, assumed at entry); panic-freedom of the recursive walkers is not claimed (flag nosafety); append copies; the maps' content after reconstructAliasedMap (which keys survive, in which order) is only covered by the bounded checks; traversal (doTraverseMap/traverseMergeAnchor) is not under contract.",
   "DESIGN.md §5 C13")
 
+claimed["C18"] = ("contract-style frame obligations discharged on an over-approximated call graph of the real code (go/ssa): one obligation per package-level variable, per field-set of every type reachable from a package-level variable, and per mutable field of every Decoder implementation; plus executed regression replays of the defects found",
+  "History half only. Proved on the call graph, for all inputs and histories: no function reachable from any evaluation entry point (every implementation of DataTreeNavigator.GetMatchingNodes, ExpressionParserInterface.ParseExpression, Encoder.*, Decoder.*, Printer.PrintResults, the three evaluators) stores into a package-level variable of yqlib or into a field of an object type held by one (operator descriptors, lexer rules, formats, configured preferences) — except lazy initialisation with non-nil values and the one tolerated idempotent write listed in tables/c18_allowed.json; every Decoder's Init assigns, on every successful path, each field that anything but the constructor stores into, so a reused decoder starts each input afresh. Three defects found and fixed (TOML and Lua decoders dropped every input after the first; envsubst rewrote a shared operator descriptor). NOT decided: the concurrency half (interleavings, data races — no thread model in this technique), state inside external libraries, encoder/printer objects reused across evaluations (resultsPrinter carries separator state by design, see C10), the decoders that load operators capture in closures (covered only through the Init-reset obligations), and byte-for-byte determinism of map iteration in libraries.",
+  "Assumed: Go memory safety (a field changes only through a store to its address); no reflection-based method calls, unsafe or cgo; library callbacks limited to function values whose type names no yq type and to methods of interfaces declared outside yq; package cmd's globals (flags) are set before evaluation.",
+  "DESIGN.md §5 C18")
+
 not_yet = {}
 
 def hook_commits():
